@@ -20,7 +20,7 @@ use ndarray_interp::interp2d::{Bilinear, Interp2D, Interp2DBuilder, Interp2DStra
 use ndarray_interp::{BuilderError, InterpolateError};
 use num_traits::{Num, NumCast};
 
-use crate::stub::{self, Expect, OpCtx, OPCTX};
+use crate::stub::{self, Expect, OpCtx};
 use crate::types::*;
 
 // ---------------------------------------------------------------------------------------------
@@ -303,6 +303,7 @@ macro_rules! gen_exec1 {
             Sd: Data<Elem = T>,
             Sx: Data<Elem = T>,
             St: Interp1DStrategy<Sd, Sx, $D>,
+            Interp1D<Sd, Sx, $D, St>: MaybeSync,
         {
             match call {
                 Call::Scalar { x, .. } => scalar1!($scalar, it, x.0, T),
@@ -450,6 +451,7 @@ macro_rules! gen_exec2 {
             Sx: Data<Elem = T>,
             Sy: Data<Elem = T>,
             St: Interp2DStrategy<Sd, Sx, Sy, $D>,
+            Interp2D<Sd, Sx, Sy, $D, St>: MaybeSync,
         {
             match call {
                 Call::Scalar { x, y } => scalar2!($scalar, it, x.0, y.0, T),
@@ -525,6 +527,20 @@ gen_exec2!(exec2_dyn, IxDyn, no);
 // ---------------------------------------------------------------------------------------------
 // Slot objects
 // ---------------------------------------------------------------------------------------------
+
+/// `Sync` on every tree whose interpolators are `Sync` (a change may add `Self: Sync` bounds to
+/// the query methods, e.g. to evaluate batches in parallel: the generic helpers below must then be
+/// able to promise it). For a tree whose interpolators are NOT `Sync` (reported by the static
+/// probe) the driver builds with the feature `no_sync_bounds`, under which this promises nothing
+/// and the `ForceSync` wrapper keeps engine A going.
+#[cfg(not(feature = "no_sync_bounds"))]
+pub trait MaybeSync: Sync {}
+#[cfg(not(feature = "no_sync_bounds"))]
+impl<T: Sync + ?Sized> MaybeSync for T {}
+#[cfg(feature = "no_sync_bounds")]
+pub trait MaybeSync {}
+#[cfg(feature = "no_sync_bounds")]
+impl<T: ?Sized> MaybeSync for T {}
 
 pub trait Slot: Send + Sync {
     /// perform the library call (no stub context handling)
@@ -755,6 +771,7 @@ macro_rules! impl_slot1 {
             Sd: Data<Elem = T>,
             Sx: Data<Elem = T>,
             St: Interp1DStrategy<Sd, Sx, $D>,
+            Interp1D<Sd, Sx, $D, St>: MaybeSync,
         {
             fn call(&self, call: &Call) -> Outcome {
                 if let (Call::Cow, Some(m)) = (call, &self.cow) {
@@ -783,6 +800,7 @@ macro_rules! impl_slot2 {
             Sx: Data<Elem = T>,
             Sy: Data<Elem = T>,
             St: Interp2DStrategy<Sd, Sx, Sy, $D>,
+            Interp2D<Sd, Sx, Sy, $D, St>: MaybeSync,
         {
             fn call(&self, call: &Call) -> Outcome {
                 if let (Call::Cow, Some(m)) = (call, &self.cow) {
@@ -818,15 +836,9 @@ pub fn query_of(call: &Call) -> Vec<(u64, u64)> {
 
 /// run one operation on a slot: publish the stub context, call, collect what the stub saw
 pub fn exec(slot: &dyn Slot, op: &Op) -> Outcome {
-    OPCTX.with(|c| {
-        *c.borrow_mut() = Some(OpCtx {
-            query: query_of(&op.call),
-            plan: op.plan.clone(),
-            yield_mask: op.yield_mask,
-            check_acc: op.check_acc,
-            log: StubLog::default(),
-        })
-    });
+    let q = query_of(&op.call);
+    let n = q.len();
+    let prev_ctx = stub::install_ctx(Some(OpCtx { query: q, plan: op.plan.clone(), yield_mask: op.yield_mask, check_acc: op.check_acc, log: StubLog::default(), foreign_taken: vec![false; n] }));
     // re-entrancy: a callback whose plan says `Nest` calls back into this very slot
     // Safety: the pointer is only dereferenced by callbacks running inside `slot.call` below, on
     // this thread, and is cleared before `exec` returns.
@@ -849,8 +861,8 @@ pub fn exec(slot: &dyn Slot, op: &Op) -> Outcome {
     let foreign = stub::NOCTX_CALLBACKS.load(std::sync::atomic::Ordering::Relaxed) != noctx0;
     let (elem_yields, fired) = crate::yelem::disarm();
     stub::CUR_SLOT.with(|c| c.set(prev));
-    if let Some(ctx) = OPCTX.with(|c| c.borrow_mut().take()) {
-        out.stub = ctx.log;
+    if let Some(log) = stub::restore_ctx(prev_ctx) {
+        out.stub = log;
     }
     out.stub.elem_yields = elem_yields;
     out.stub.elem_fault_fired = fired;
